@@ -1,4 +1,6 @@
 import LcmProofs.SolveFull
+import LcmProofs.SpecRefine
+import LcmProps.C06
 import LcmProps.Examples
 namespace Lcm
 
@@ -92,5 +94,112 @@ theorem C01_last_period_objective (m : Model) (P : Params) (g : Groups) (t : Nat
 #guard 0 < Ex.f1Model.nPeriods ∧ (!((groups Ex.f1Model).sS.isEmpty && (groups Ex.f1Model).sC.isEmpty)) = true
 #guard (!((groups Ex.consModel).sS.isEmpty && (groups Ex.consModel).sC.isEmpty)) = false
 #guard (feasOf Ex.f1Model Ex.f1Params 1).length = 2 ∧ (feasOf Ex.f1Model Ex.f1Params 0).length = 3
+
+
+/-! ## Refinement to the specification level
+
+`specV` (`LcmModel/Spec.lean`) is the Bellman value by *plain enumeration*: all declared choices in declaration
+order, one environment per combination, admissible = every filter and every constraint holds; no groups, no axes,
+no feasible-rank, no arg-max chain. The harness uses it (driver ops `spec_v`, `sim_spec`) as the oracle side of the
+pipeline properties; the two theorems below show that it is not a second, merely tested description: every stored
+entry of `solve` *is* `specV` at the grid state the entry belongs to. The only hypothesis beyond the index bounds is
+that the declared variable names are pairwise distinct (`Model` enforces it: dict keys, no name both state and
+choice). -/
+
+/-- models with filter-restricted variables -/
+theorem C01_entry_eq_spec_restricted (m : Model) (P : Params) (t : Nat) (ht : t < m.nPeriods)
+    (hsparse : (!((groups m).sS.isEmpty && (groups m).sC.isEmpty)) = true)
+    (k : Nat) (hk : k < (feasOf m P t).length) (dIdx xIdx : List Nat)
+    (hd : InBounds (sizes (groups m).dS) dIdx) (hx : InBounds (sizes (cStateGrids (groups m))) xIdx)
+    (hnd : ((m.states ++ m.choices).map (·.1)).Nodup) :
+    ((solve m P true).getD t default).get (k :: (dIdx ++ xIdx))
+      = specV m P (groups m) t (nextOf m P (solve m P true) t)
+          ((feasOf m P t)[k] ++ pickAt (groups m).dS dIdx ++ pickAt (cStateGrids (groups m)) xIdx) := by
+  have hdl : dIdx.length = (groups m).dS.length := by rw [inBounds_length _ _ hd, sizes_length]
+  have hxl : xIdx.length = (cStateGrids (groups m)).length := by rw [inBounds_length _ _ hx, sizes_length]
+  have hsmem : (feasOf m P t)[k] ∈ feasOf m P t := List.getElem_mem hk
+  have hs : (feasOf m P t)[k] ∈ assignments (groups m).sS := List.mem_of_mem_filter hsmem
+  generalize hstdef : (feasOf m P t)[k] ++ pickAt (groups m).dS dIdx ++ pickAt (cStateGrids (groups m)) xIdx = st
+  have h6 := C06_on_grid_value m P t ht hsparse k hk dIdx xIdx hd hx [st] 0 (by simp) (allNames_nodup m hnd)
+    (by rw [← hstdef]; exact List.Perm.refl _)
+  have hkeys : st.map (·.1) = (groups m).sS.map (·.1) ++ (groups m).dS.map (·.1) ++ (cStateGrids (groups m)).map (·.1) := by
+    rw [← hstdef]
+    simp only [List.map_append]
+    rw [assignments_keys _ _ hs, pickAt_keys _ _ hdl, pickAt_keys _ _ hxl]
+  have hspec := specAgent_best_eq_value m P t (simNext m P (solve m P true) t) [st] 0 (by simp) hnd
+    (by show ((st).map (·.1) ++ _).Nodup; rw [hkeys]; exact gridState_choice_names_nodup m hnd)
+    (by
+      intro hsC
+      show allTrue m P (toEnv st ++ periodEnv t) (filterNames m) = some true
+      have hnil : (groups m).sC = [] := List.isEmpty_iff.mp hsC
+      have hany : (assignments (groups m).sC).any (spaceFilt m P t ((feasOf m P t)[k])) = true :=
+        (List.mem_filter.mp hsmem).2
+      rw [hnil] at hany
+      have h0 : spaceFilt m P t ((feasOf m P t)[k]) [] = true := by simpa [assignments] using hany
+      unfold spaceFilt at h0
+      have hframe : allTrue m P (toEnv st ++ periodEnv t) (filterNames m)
+          = allTrue m P (toEnv ((feasOf m P t)[k] ++ []) ++ periodEnv t) (filterNames m) := by
+        apply allTrue_frame
+        intro f hf x hxa
+        have hnot : x ∉ (pickAt (groups m).dS dIdx ++ pickAt (cStateGrids (groups m)) xIdx).map (·.1) := by
+          rw [List.map_append, pickAt_keys _ _ hdl, pickAt_keys _ _ hxl]
+          intro hmem
+          rcases List.mem_append.mp hmem with h | h
+          · exact dense_states_not_read_by_filters m x (Or.inl h) f hf hxa
+          · exact dense_states_not_read_by_filters m x (Or.inr h) f hf hxa
+        have := get?_skip_middle ((feasOf m P t)[k]) (pickAt (groups m).dS dIdx ++ pickAt (cStateGrids (groups m)) xIdx) []
+          (periodEnv t) x hnot
+        rw [← hstdef]
+        simpa [List.append_assoc] using this
+      rw [hframe]
+      cases hA : allTrue m P (toEnv ((feasOf m P t)[k] ++ []) ++ periodEnv t) (filterNames m) with
+      | none => rw [show allTrue m P (toEnv ((feasOf m P t)[k] ++ []) ++ periodEnv t)
+            (((functionInfo m).filter (·.isFilter)).map (·.name)) = none from hA] at h0; simp at h0
+      | some b => rw [show allTrue m P (toEnv ((feasOf m P t)[k] ++ []) ++ periodEnv t)
+            (((functionInfo m).filter (·.isFilter)).map (·.name)) = some b from hA] at h0; simpa using h0)
+    []
+  rw [specV_eq_best m P (groups m) t _ st []]
+  exact h6.symm.trans hspec.symm
+
+/-- models without filter-restricted variables; `hfs`: filters that read no variable at all (the only filters such a
+model can have) hold - `solve` does not evaluate them -/
+theorem C01_entry_eq_spec_unrestricted (m : Model) (P : Params) (t : Nat) (ht : t < m.nPeriods)
+    (hdense : (!((groups m).sS.isEmpty && (groups m).sC.isEmpty)) = false)
+    (dIdx xIdx : List Nat)
+    (hd : InBounds (sizes (groups m).dS) dIdx) (hx : InBounds (sizes (cStateGrids (groups m))) xIdx)
+    (hnd : ((m.states ++ m.choices).map (·.1)).Nodup)
+    (hfs : allTrue m P (toEnv (pickAt (groups m).dS dIdx ++ pickAt (cStateGrids (groups m)) xIdx) ++ periodEnv t)
+      (filterNames m) = some true) :
+    ((solve m P true).getD t default).get (dIdx ++ xIdx)
+      = specV m P (groups m) t (nextOf m P (solve m P true) t)
+          (pickAt (groups m).dS dIdx ++ pickAt (cStateGrids (groups m)) xIdx) := by
+  have hdl : dIdx.length = (groups m).dS.length := by rw [inBounds_length _ _ hd, sizes_length]
+  have hxl : xIdx.length = (cStateGrids (groups m)).length := by rw [inBounds_length _ _ hx, sizes_length]
+  have hemp : ((groups m).sS.isEmpty && (groups m).sC.isEmpty) = true := by simpa using hdense
+  simp only [Bool.and_eq_true, List.isEmpty_iff] at hemp
+  generalize hstdef : pickAt (groups m).dS dIdx ++ pickAt (cStateGrids (groups m)) xIdx = st at hfs ⊢
+  have h6 := C06_on_grid_value_unrestricted m P t ht hdense dIdx xIdx hd hx [st] 0 (by simp) (allNames_nodup m hnd)
+    (by rw [← hstdef]; exact List.Perm.refl _)
+  have hkeys : st.map (·.1) = (groups m).sS.map (·.1) ++ (groups m).dS.map (·.1) ++ (cStateGrids (groups m)).map (·.1) := by
+    rw [← hstdef, hemp.1]
+    simp only [List.map_append, List.map_nil, List.nil_append]
+    rw [pickAt_keys _ _ hdl, pickAt_keys _ _ hxl]
+  have hspec := specAgent_best_eq_value m P t (simNext m P (solve m P true) t) [st] 0 (by simp) hnd
+    (by show ((st).map (·.1) ++ _).Nodup; rw [hkeys]; exact gridState_choice_names_nodup m hnd)
+    (fun _ => hfs) []
+  rw [specV_eq_best m P (groups m) t _ st []]
+  exact h6.symm.trans hspec.symm
+
+-- non-vacuity: the hypotheses hold on both example specifications and the two sides are the pinned numbers
+example : ((Ex.f1Model.states ++ Ex.f1Model.choices).map (·.1)).Nodup := by decide
+example : ((Ex.consModel.states ++ Ex.consModel.choices).map (·.1)).Nodup := by decide
+#guard (feasOf Ex.f1Model Ex.f1Params 0).length == 3
+#guard specV Ex.f1Model Ex.f1Params (groups Ex.f1Model) 0 (nextOf Ex.f1Model Ex.f1Params (solve Ex.f1Model Ex.f1Params) 0)
+    ((feasOf Ex.f1Model Ex.f1Params 0)[2]! ++ pickAt (groups Ex.f1Model).dS [] ++ pickAt (cStateGrids (groups Ex.f1Model)) [])
+  == ((solve Ex.f1Model Ex.f1Params).getD 0 default).get [2]
+#guard specV Ex.consModel Ex.consParams (groups Ex.consModel) 1 (nextOf Ex.consModel Ex.consParams (solve Ex.consModel Ex.consParams) 1)
+    (pickAt (groups Ex.consModel).dS [] ++ pickAt (cStateGrids (groups Ex.consModel)) [2])
+  == ((solve Ex.consModel Ex.consParams).getD 1 default).get [2]
+#guard filterNames Ex.consModel == []
 
 end Lcm
